@@ -74,4 +74,40 @@ PROPS = {
         "level_note": "Trusted: Go regexp as the definition of what a compiled pattern accepts; witnesses are sampled, so a counterexample that needs a very specific string can be missed.",
         "assumptions": COMMON_ASSUME + ["strings are printable ASCII (Unicode case folding is outside the property)"],
     },
+    "C01": {
+        "shards": (4, 16),
+        "rule": "rapid: 1..4 lists (ids from {-2^31,-1,0,1,2^31-1,...} or random int32, String or File backed), 0..40 network rules from the modifier grammar over a pattern vocabulary that populates all three tables (long literals with several 5-byte windows, windows shared between rules, FastHash-colliding windows and $domain values, short shortcuts with/without $domain, name.* domains, regexes, any-URL shortcuts), duplicates, noise lines, generated insertion order and split; 5..30 requests per engine built from the rules (web and host-name, client/ctag/dnstype fields, windows at URL end, repeated windows, colliding strings). "
+                "Oracle: set of texts of NetworkEngine.MatchAll == set of texts of lines that parse to a network rule and whose FRESH rule object matches a FRESH request (no index, storage or cache); returned list id must belong to a list containing the text. Non-trivial = some rule matches and the rules populate >=2 tables; distinct by (lists, request).",
+        "technique": "differential property-based testing (rapid): indexed lookup vs linear scan",
+        "level_text": "Generated search over lists x requests with a linear-scan reference; labels report which table served the hits.",
+        "level_note": "Trusted: NetworkRule.Match itself (the property says 'individually match'; its correctness is C03-C05).",
+        "assumptions": COMMON_ASSUME + ["compared as sets of rule texts (equal texts are de-duplicated by the sequential table, which the statement allows)"],
+    },
+    "C02": {
+        "shards": (4, 16),
+        "rule": "rapid: 1..3 lists mixing host-level network rules, browser-only rules ($domain, third-party, match-case, mixed content types, document-level exceptions, popup), $dnsrewrite rules, badfilter twins, hosts lines (v4, v6, IPv4-mapped, several names, a name on several lines), bare domains, over a host universe with FastHash-colliding names; 4..12 DNS requests each (type, client name/IP, sorted tags) steered to the rules. "
+                "Oracle: linear scan: NetworkRules == applicable(model) AND fresh Match; basic rule nil iff reference class none, else same class and member of the matching set, host slices empty; otherwise HostRulesV4/V6 == lines naming the host split by textual address family; matched == basic or host entry. Non-trivial = non-empty answer from a list containing both hosts lines and network rules; distinct by (entries, request).",
+        "technique": "differential property-based testing (rapid): DNS engine vs reference resolution by linear scan",
+        "level_text": "Generated search with a reference resolution; hash-collision buckets are forced by construction.",
+        "level_note": "Trusted: NetworkRule.Match/NewRule for classification of a line; applicability is computed on the generated model, not by IsHostLevelNetworkRule.",
+        "assumptions": COMMON_ASSUME + ["host names are lower-case and non-empty (caller pre-condition)", "sets of rule texts are compared (a line naming a host twice is indexed twice)"],
+    },
+    "C06": {
+        "shards": (4, 16),
+        "rule": "rapid: multisets of 1..6 request candidates (all matching one fixed request) and 0..4 referrer candidates drawn from the product {exception, important, $domain-specific, content type, urlblock/genericblock/document/elemhide/jsinject, $dnsrewrite, $stealth, $badfilter twins}, and a DNS flavour with host-level candidates. Each multiset is fed in ALL permutations (n<=5; rotations+reversals above) of request and referrer rules to NewMatchingResult / GetDNSBasicRule, and in 1..3 generated line orders and 1..3-way list splits through Engine.MatchRequest, NetworkEngine.Match and DNSEngine.MatchRequest. "
+                "Oracle: documented precedence computed from the rule texts; result never a rewrite/badfilter/stealth rule. Non-trivial = >=2 distinct verdict classes among candidates or a document-level exception on the referrer; distinct by multiset.",
+        "technique": "property-based testing (rapid) over candidate multisets x all permutations against a text-level precedence model",
+        "level_text": "Order-independence is decided for every generated multiset by exhausting its permutations (up to 5 rules); multisets are sampled from the feature product.",
+        "level_note": "Trusted: the text-level precedence function; candidates are a fixed vocabulary all matching one request (matching itself is C01/C04).",
+        "assumptions": COMMON_ASSUME + ["$replace/$cookie/$csp rules are not parseable in this version and are not covered"],
+    },
+    "C08": {
+        "shards": (4, 16),
+        "rule": "rapid: base list of 0..8 generated rules; 1..4 added rules (any modifiers incl. $denyallow, $dnstype, $dnsrewrite, $client, siblings that differ from an earlier added rule in one value) each structurally distinct from every other rule, inserted together with their $badfilter twins (modifier and value order re-drawn) at generated positions in 1..3 lists; second family: a lone twin whose rule is absent while a one-value near miss sits in the base list. 3..8 requests (web and DNS) built from the rules. "
+                "Oracle (metamorphic): verdict class through Engine.MatchRequest, NetworkEngine.Match and DNSEngine.MatchRequest (+ set of DNSRewrites texts, host rules, matched) is identical for the base lists and the lists with the additions; no result object is a badfilter rule. Non-trivial = >=2 badfilter rules present or an added rule carries $denyallow/$dnstype/$dnsrewrite; distinct by (lists, request).",
+        "technique": "metamorphic property-based testing (rapid): list vs list + {rule, rule$badfilter}",
+        "level_text": "Sampled metamorphic search; identity 'apart from badfilter' is decided on the generated models (value sets, not written order).",
+        "level_note": "Trusted: the harness notion of structural identity (exception flag, pattern, modifier value sets).",
+        "assumptions": COMMON_ASSUME + ["the order of values inside a modifier is not part of a rule's identity (C04: value order never matters; the repository's own tests expect this for $ctag and $client)"],
+    },
 }
